@@ -82,3 +82,39 @@ func VerifH_c18_aesgcm() {
 	a, _, _ := build()
 	verifh.CheckAEADShared(a)
 }
+
+// Every parameter combination NewParameters accepts (key 16 / 24 / 32, any IV size > 0, tag
+// 12..16): the key and parameters serializers either refuse it (the proto format has no IV /
+// tag size fields, so only IV 12 / tag 16 is representable) or the round trip gives an Equal
+// object. What must not happen is a silent change of parameters on the way through a keyset.
+func VerifH_serial_aesgcm_sizes() {
+	kind := verifrt.Choice("variant", 3)
+	v := [...]Variant{VariantTink, VariantCrunchy, VariantNoPrefix}[kind]
+	ks := [...]int{16, 24, 32}[verifrt.Choice("ks", 3)]
+	iv := [...]int{1, 11, 12, 13, 16}[verifrt.Choice("iv", 5)]
+	tag := 12 + verifrt.Choice("tag", 5)
+	id := verifrt.Uint32("id")
+	if kind == 2 {
+		id = 0
+	}
+	params, err := NewParameters(ParametersOpts{KeySizeInBytes: ks, IVSizeInBytes: iv, TagSizeInBytes: tag, Variant: v})
+	verifrt.Assert(err == nil, "NewParameters accepts key 16/24/32, IV > 0, tag 12..16")
+	k, err := NewKey(secretdata.NewBytesFromData(verifrt.Bytes("key", ks), insecuresecretdataaccess.Token{}), id, params)
+	verifrt.Assert(err == nil, "NewKey")
+	if ser, err := (&keySerializer{}).SerializeKey(k); err == nil {
+		back, err := (&keyParser{}).ParseKey(ser)
+		verifrt.Assert(err == nil && back != nil && back.Equal(k), "a key that serializes parses back to an Equal key (same IV and tag size)")
+		verifrt.Reach("key-roundtrip")
+	} else {
+		verifrt.Assert(iv != 12 || tag != 16, "the standard sizes always serialize")
+		verifrt.Reach("key-refused")
+	}
+	if tpl, err := (&parametersSerializer{}).Serialize(params); err == nil {
+		back, err := (&parametersParser{}).Parse(tpl)
+		verifrt.Assert(err == nil && back != nil && back.Equal(params), "parameters that serialize parse back to Equal parameters (same IV and tag size)")
+		verifrt.Reach("params-roundtrip")
+	} else {
+		verifrt.Assert(iv != 12 || tag != 16, "the standard sizes always serialize")
+		verifrt.Reach("params-refused")
+	}
+}
